@@ -84,6 +84,50 @@ def gamma_grid():
     return xs
 
 
+POS_KERNELS = ("exponential", "inversegamma", "loglaplace", "lognormal")
+SYM_KERNELS = ("laplace", "normal", "super_gaussian", "triangular")
+# container dtypes of the dtype class (C18 quantifies over signals and kernels, not over float64 arrays only)
+DTYPES = ["int32", "int64", "uint8", "float32", "float64"]
+TOL64, TOL32 = 1e-8, 1e-4   # deconvolution tolerance (relative to 1 + max|x|); float32 anywhere: rfft works in complex64
+
+
+def pow2(n: int) -> bool:
+    return n > 0 and n & (n - 1) == 0
+
+
+def dtype_domain(xdt, pdt, xq, pq):
+    """The dtype class relies on an invariant: every sample is representable in its container dtype and every partial
+    sum of products of the convolution is exact in numpy's result dtype (no integer wrap-around, no float rounding).
+    Returns None when it holds, else the reason (the case is then outside the class: undetermined)."""
+    try:
+        xd, pd = np.dtype(xdt), np.dtype(pdt)
+    except TypeError:
+        return "unknown dtype"
+    if not xq or not pq:
+        return "empty"
+    for d, vals in ((xd, xq), (pd, pq)):
+        if d.kind in "iu":
+            info = np.iinfo(d)
+            if any(v.denominator != 1 or not info.min <= v <= info.max for v in vals):
+                return f"sample not representable in {d}"
+        elif d.kind == "f":
+            mant = np.finfo(d).nmant + 1
+            if any(not pow2(v.denominator) or abs(v.numerator) >= 2 ** mant for v in vals):
+                return f"sample not representable in {d}"
+        else:
+            return "unsupported dtype"
+    rd = np.result_type(xd, pd)
+    bound = max(abs(v) for v in xq) * sum(abs(v) for v in pq)        # bounds every partial sum of products
+    if rd.kind in "iu":
+        if bound > np.iinfo(rd).max:
+            return f"convolution may wrap in {rd}"
+    else:
+        den = max(v.denominator for v in xq) * max(v.denominator for v in pq)
+        if bound * den >= 2 ** (np.finfo(rd).nmant + 1):
+            return f"convolution not exact in {rd}"
+    return None
+
+
 KERNELS = ["beta", "exponential", "inversegamma", "laplace", "loglaplace", "lognormal", "normal", "super_gaussian",
            "triangular"]
 
@@ -91,15 +135,27 @@ KERNELS = ["beta", "exponential", "inversegamma", "laplace", "loglaplace", "logn
 class C18(Prop):
     id = "C18"
     anchored = ["src/pewlib/process/convolve.py"]
-    cases = {"quick": 300, "thorough": 6000}
+    cases = {"quick": 420, "thorough": 8400}
     rule = ("PARTIAL EVIDENCE. convolve: signals of length m..40 (dyadic values, incl. constant signals), kernels of every "
             "length 1..9 (odd and even; sum-to-one and arbitrary signed), compared exactly with the Lean mechanism and with the "
             "Lean specification (length, interior = ordinary convolution, constants reproduced). deconvolve: full "
             "convolutions of non-zero signals with first-tap-dominant kernels (|p0| >= 1.5 sum|rest|), modes valid/same, "
-            "tolerance 1e-8. Kernel generators: each of the 9 generators over its documented parameter domain with the axis "
+            "tolerance 1e-8. DTYPE CLASS (convolve:dtype / deconv:dtype, ~10 % + ~14 % of the generated cases plus 162 targeted): "
+            "signal and kernel held in int32 / int64 / uint8 (non-negative) / float32 / float64 containers in every "
+            "combination; convolve in pad mode against mechanism and specification and in the numpy modes full / valid / same "
+            "against the Lean convolution, all exact; deconvolve (valid and same) applied to the full convolution that pewlib "
+            "itself returns for the typed arrays (so integer signal x integer kernel gives an integer-dtype input), recovered "
+            "samples compared with the original at 1e-8 (1e-4 when a float32 array takes part: numpy transforms it in single "
+            "precision). Kernel generators: each of the 9 generators over its documented parameter domain with the axis "
             "inside the density's support (sizes 2..64, beta shapes >= 1 with >= 3 points, integer super-Gaussian powers, "
             "scales, shifts): size, axis (vs Lean linspace), finite, non-negative, |sum-1| <= 1e-9; triangular also value by "
-            "value against the Lean model. erf / erfinv / gamma: deterministic dense grids (targeted) plus random arguments, "
+            "value against the Lean model. BOUNDARY CLASS (kernel:boundary:*, ~14 % of the generated cases plus 170 targeted): "
+            "parameters ON the limits of the documented domains with the density still finite on the axis - triangular with "
+            "a == 0 or b == 0, support end points and the mode 0 exactly on the axis (odd sizes, shift 0 or whole steps), beta "
+            "with a shape exactly 1 on axes touching 0 and 1, exponential on an axis that starts or ends at exactly 0, "
+            "Laplace / normal / super-Gaussian with the location exactly on the first, last or centre axis point, log-Laplace "
+            "and log-normal with log x = mu on the axis, super-Gaussian powers 1, 2 (int and float) and 3..8, negative scale "
+            "(descending axes) for every generator. erf / erfinv / gamma: deterministic dense grids (targeted) plus random arguments, "
             "validated numerically against math.erf (abs 5e-4, all reals incl. negative, tiny, huge), an inverse error "
             "function derived from statistics.NormalDist().inv_cdf (rel 6e-3 on (-1,1): |x| from 1e-99, 1-|x| down to one "
             "ulp) and math.gamma (rel 3e-7, 1e-9..30, integers and their float neighbours); erf and gamma additionally "
@@ -123,7 +179,14 @@ class C18(Prop):
                    "known finding C18-erfinv-underflow: erfinv(x) = 0 for 0 < |x| < 1e-160; the grid stops at 1e-99, one targeted "
                    "case exercises it and is routed through known()",
                    "deconvolve is checked on signals without zero samples (np.trim_zeros would otherwise shorten the exact result) "
-                   "and first-tap-dominant kernels ('well-conditioned')"]
+                   "and first-tap-dominant kernels ('well-conditioned'); evaluate counts anything else as undetermined",
+                   "dtype class: every sample representable in its container and every partial sum of the convolution exact in "
+                   "numpy's result dtype (no integer wrap-around - uint8 signals/kernels are kept small -, no float32 rounding); "
+                   "evaluate recomputes this bound for any case and counts a case outside it as undetermined",
+                   "kernel cases are checked against the documented domain inside evaluate (triangular a <= 0 <= b, a < b and an "
+                   "axis point that carries density whichever way the float axis rounds; beta axis inside [0, 1]; one-sided "
+                   "generators x > 0, exponential x >= 0; symmetric generators: an axis point within the underflow range of the "
+                   "location); a case outside it (only a shrinker can produce one) is undetermined, never a violation"]
 
     # ------------------------------------------------------------------ generation
     def gen_psf(self, rng, m, unit):
@@ -140,7 +203,14 @@ class C18(Prop):
                 return w
 
     def generate(self, rng, tier):
-        kind = rng.choice(["convolve"] * 4 + ["deconv"] * 2 + ["kernel"] * 4 + ["erf", "erfinv", "gamma"])
+        kind = rng.choice(["convolve"] * 4 + ["deconv"] * 2 + ["kernel"] * 4 + ["erf", "erfinv", "gamma"]
+                          + ["kernel-boundary"] * 3 + ["convolve-dtype"] * 2 + ["deconv-dtype"] * 3)
+        if kind == "kernel-boundary":
+            return self.gen_kernel_boundary(rng)
+        if kind == "convolve-dtype":
+            return self.gen_convolve_dtype(rng)
+        if kind == "deconv-dtype":
+            return self.gen_deconv_dtype(rng)
         if kind == "convolve":
             m = rng.choice([1, 2, 3, 4, 5, 6, 7, 8, 9])
             n = m if rng.random() < 0.15 else rng.randint(m, 40)
@@ -224,6 +294,111 @@ class C18(Prop):
                 case["args"] = [rng.choice([a, -5.0 if half >= 5 else a]), rng.choice([b, 5.0 if half >= 5 else b])]
         return case
 
+    # -- class "kernel:boundary": parameters ON the limits of the documented domains with the density still finite on
+    #    the axis, axes that contain exact 0.0 / exact support end points / the location parameter, both signs of scale
+    def gen_kernel_boundary(self, rng, name=None):
+        name = name or rng.choice(["triangular"] * 5 + ["exponential", "exponential", "laplace", "laplace", "beta", "beta",
+                                                         "super_gaussian", "super_gaussian", "normal", "loglaplace",
+                                                         "lognormal", "inversegamma"])
+        r2 = lambda lo, hi: round(rng.uniform(lo, hi), rng.choice([0, 1, 2, 6]))
+        case = {"kind": "kernel", "name": name, "boundary": True}
+        if name == "triangular":
+            size = rng.choice([3, 5, 7, 9, 11, 13, 17, 21, 33, 65, 9, 11, 21, 4, 10])      # mostly odd: 0 on the axis
+            scale = rng.choice([1.0, 1.0, 1.0, 2.0, 0.5, 0.25, 1.5, -1.0, -2.0])
+            step = abs(size * scale / (size - 1))
+            mid = (size - 1) // 2
+            whole = rng.random() < 0.8             # axis moved by whole steps only: with an odd size 0 stays on it
+            shift = rng.choice([0.0, 0.0, 0.0, 0.0, rng.choice([-1, 1]) * rng.randint(1, mid) * step]) if whole else \
+                round(rng.uniform(-0.4, 0.4) * step, 3)
+            generic = lambda: round(rng.uniform(1.2, 4.0) * step + abs(shift), 3)   # an axis point strictly inside
+            lim = lambda: rng.choice([generic(), rng.randint(1, max(1, mid)) * step,   # an axis point when shift = 0
+                                      5.0, float(rng.randint(1, 8))]) if whole and size % 2 else generic()
+            variant = rng.choice(["b=0", "b=0", "a=0", "ends"])
+            a, b = {"b=0": (-lim(), 0.0), "a=0": (0.0, lim()), "ends": (-lim(), lim())}[variant]
+            case.update(size=size, args=[a, b], scale=scale, shift=shift)
+        elif name == "beta":
+            one = lambda: rng.choice([1.0, 2.0, 2.5, 5.0, max(1.0, r2(1, 8))])
+            case["size"] = rng.choice([3, 3, 4, 5, 10, 17, 33])
+            case["args"] = rng.choice([[1.0, 1.0], [1.0, one()], [one(), 1.0]])
+            # every axis is exactly inside [0, 1] and touches 0 or 1 (or both), ascending or descending
+            case["scale"], case["shift"] = rng.choice([(1.0, 0.0), (1.0, 0.0), (-1.0, 1.0), (0.5, 0.5), (0.5, 0.0),
+                                                       (-0.5, 0.5), (-0.5, 1.0), (0.25, 0.75)])
+        elif name in POS_KERNELS:
+            size = rng.choice([2, 3, 5, 10, 17, 64])
+            s = rng.choice([1.0, 1.0, 0.5, 2.0, 0.25])
+            if name == "exponential":                   # support x >= 0: the axis starts (or, descending, ends) at exactly 0
+                case["args"] = [rng.choice([1.0, 0.01, 0.5, 5.0, max(0.01, r2(0.01, 5))])]
+                scale, shift = rng.choice([(s, 0.0), (s, 0.0), (-s, size * s), (s, 1e-6)])
+            else:                                       # x > 0: descending axes; log x = mu exactly at the first point
+                case["args"] = {"inversegamma": [rng.choice([1.0, 0.5, 3.0]), rng.choice([1.0, 0.1, 5.0])],
+                                "loglaplace": [rng.choice([0.5, 1.0, 0.2, 3.0]), 0.0],
+                                "lognormal": [rng.choice([1.0, 0.2, 0.5, 2.0]), 0.0]}[name]
+                t = rng.choice([1e-6, 1e-3, 0.5, 1.0])
+                scale, shift = rng.choice([(s, 1.0), (-s, size * s + t), (-s, size * s + t)])
+            case.update(size=size, scale=scale, shift=shift)
+        else:   # laplace, normal, super_gaussian: location exactly on an axis point (first, last, centre), scale of both signs
+            size = rng.choice([2, 3, 5, 9, 10, 11, 17, 33, 64])
+            scale = rng.choice([1.0, 1.0, 0.5, 2.0, -1.0, -0.5, -2.0])
+            shift = rng.choice([0.0, 0.0, 1.0, -2.5, round(rng.uniform(-5, 5), 2)])
+            width = rng.choice([1.0, 0.5, 2.0, round(rng.uniform(0.2, 5.0), 2)]) * max(abs(scale), 0.2)
+            loc = rng.choice([-size * 0.5 * scale + shift, size * 0.5 * scale + shift] + [shift] * (size % 2))
+            case.update(size=size, scale=scale, shift=shift, args=[width, loc])
+            if name == "super_gaussian":
+                case["args"].append(rng.choice([1, 2, 2, 2.0, 3, 4, 5, 6, 8]))
+        return case
+
+    # -- class "dtype": signals and kernels held in integer / single-precision containers
+    def gen_dtypes(self, rng):
+        while True:
+            xdt, pdt = rng.choice(DTYPES), rng.choice(DTYPES)
+            if (xdt, pdt) != ("float64", "float64"):
+                return xdt, pdt
+
+    def gen_convolve_dtype(self, rng):
+        xdt, pdt = self.gen_dtypes(rng)
+        isint = lambda d: np.dtype(d).kind in "iu"
+        m = rng.choice([1, 2, 3, 4, 5, 6, 7, 8, 9])
+        n = m if rng.random() < 0.15 else rng.randint(m, 40)
+        const = rng.random() < 0.25
+        unit = const or rng.random() < 0.5
+        lo, hi = (0, 9) if xdt == "uint8" else (-400, 400)
+        c = rng.randint(lo, hi)
+        x = [c] * n if const else [rng.randint(lo, hi) for _ in range(n)]
+        if isint(pdt):                          # integer kernel: sum one = a delta at any tap
+            if unit:
+                psf = [0] * m
+                psf[rng.randrange(m)] = 1
+            else:
+                psf = [0]
+                while not any(psf):
+                    psf = [rng.randint(0, 3) if pdt == "uint8" else rng.randint(-16, 16) for _ in range(m)]
+            pden = 1
+        else:
+            psf, pden = self.gen_psf(rng, m, unit), 32
+        return {"kind": "convolve", "x": x, "psf": psf, "xden": 1 if isint(xdt) else 4, "pden": pden, "xdt": xdt, "pdt": pdt}
+
+    def gen_deconv_dtype(self, rng):
+        xdt, pdt = self.gen_dtypes(rng)
+        if rng.random() < 0.5:                  # integer signal AND integer kernel: the full convolution is an integer array
+            xdt, pdt = rng.choice(DTYPES[:3]), rng.choice(DTYPES[:3])
+        m = rng.choice([1, 2, 3, 3, 4, 5, 6])
+        n = rng.randint(max(m, 3), 40)
+        if xdt == "uint8":
+            x = [rng.randint(1, 12) for _ in range(n)]
+        else:
+            x = [rng.choice([-1, 1]) * rng.randint(1, 100) if rng.random() < 0.3 else rng.randint(1, 100) for _ in range(n)]
+        small = "uint8" in (xdt, pdt)           # keep the full convolution inside 0..255
+        p0 = rng.randint(6, 12) if small else rng.choice([-1, 1]) * rng.randint(12, 24)
+        budget = abs(p0) * 2 // 3
+        rest = []
+        for _ in range(m - 1):
+            v = rng.randint(0 if pdt == "uint8" else -budget, budget) if budget > 0 else 0
+            rest.append(v)
+            budget -= abs(v)
+        pden = 1 if np.dtype(pdt).kind in "iu" else rng.choice([1, 8])
+        return {"kind": "deconv", "x": x, "psf": [p0] + rest, "mode": rng.choice(["valid", "same"]), "pden": pden,
+                "xdt": xdt, "pdt": pdt}
+
     def targeted(self, tier):
         for ch in chunks(erf_grid()):
             yield {"kind": "erf", "xs": ch, "array": True}
@@ -251,6 +426,43 @@ class C18(Prop):
                 if name == "beta" and size < 3:
                     continue
                 yield {"kind": "kernel", "name": name, "size": size, "args": args, "scale": scale, "shift": shift}
+        # parameters on the limits of the documented domains, axes through exact 0.0 / support end points / the location
+        K = lambda name, size, args, scale, shift: {"kind": "kernel", "name": name, "size": size, "args": args,
+                                                    "scale": scale, "shift": shift, "boundary": True}
+        for size, scale in [(3, 1.0), (5, 1.0), (9, 2.0), (11, 1.0), (21, 1.0), (17, 0.5), (9, -2.0), (10, 1.0), (4, 1.0)]:
+            step = abs(size * scale / (size - 1))
+            for a, b in [(-5.0, 0.0), (0.0, 5.0), (-2 * step, 0.0), (0.0, 2 * step), (-step, step), (-8.0, 0.0)]:
+                yield K("triangular", size, [a, b], scale, 0.0)
+            yield K("triangular", size, [-5.0, 0.0], scale, step)           # axis moved by one whole step: 0 stays on it
+            yield K("triangular", size, [0.0, 5.0], scale, -step)
+        for size in (2, 3, 10, 17):
+            yield K("exponential", size, [1.0], 1.0, 0.0)
+            yield K("exponential", size, [0.5], -1.0, float(size))
+            yield K("laplace", size, [1.0, -size * 0.5], 1.0, 0.0)
+            yield K("laplace", size, [0.5, size * 0.5 * -1.0 + 1.0], -1.0, 1.0)
+            yield K("normal", size, [1.0, size * 0.5], 1.0, 0.0)
+            for power in (1, 2, 2.0, 3, 6, 8):
+                yield K("super_gaussian", size, [1.0, -size * 0.5, power], 1.0, 0.0)
+            yield K("loglaplace", size, [0.5, 0.0], 1.0, 1.0)
+            yield K("lognormal", size, [1.0, 0.0], -1.0, size + 1e-3)
+            yield K("inversegamma", size, [1.0, 1.0], -0.5, size * 0.5 + 1e-6)
+        for size in (3, 4, 10, 33):
+            for args in ([1.0, 1.0], [1.0, 2.5], [3.0, 1.0]):
+                for scale, shift in [(1.0, 0.0), (-1.0, 1.0), (0.5, 0.5)]:
+                    yield K("beta", size, args, scale, shift)
+        for size in (9, 11, 21):
+            yield K("laplace", size, [1.0, 0.0], 1.0, 0.0)
+            yield K("super_gaussian", size, [2.0, 0.0, 4], -1.0, 0.0)
+        # signals / kernels in integer and single-precision containers, every mode
+        sig = [5, 3, 8, 1, 9, 2, 7, 4, 6, 11, 12, 2, 10, 3, 9, 1, 8, 5, 7, 6, 4, 12, 3]
+        for xdt, pdt in [("int64", "int64"), ("int32", "int32"), ("uint8", "uint8"), ("int32", "int64"), ("uint8", "int32"),
+                         ("float32", "float32"), ("int64", "float64"), ("float64", "int64"), ("float32", "int32")]:
+            for psf in ([5, 2, 1], [3, 1], [7], [6, 1, 1, 1, 1]):
+                for mode in ("valid", "same"):
+                    yield {"kind": "deconv", "x": sig, "psf": psf, "mode": mode, "pden": 1, "xdt": xdt, "pdt": pdt}
+            for psf in ([0, 1, 0], [1, 2, 1], [1, 0], [2, 1, 0, 3], [1]):
+                yield {"kind": "convolve", "x": [v % 10 for v in sig], "psf": psf, "xden": 1, "pden": 1, "xdt": xdt, "pdt": pdt}
+                yield {"kind": "convolve", "x": [7] * (len(psf) + 2), "psf": psf, "xden": 1, "pden": 1, "xdt": xdt, "pdt": pdt}
 
     # ------------------------------------------------------------------ evaluation
     def evaluate(self, case, ctx):
@@ -260,20 +472,29 @@ class C18(Prop):
     def eval_convolve(self, case, ctx):
         from pewlib.process import convolve as cv
 
-        xq = [Fraction(v, 4) for v in case["x"]]
-        pq = [Fraction(v, 32) for v in case["psf"]]
-        x, psf = np.array([float(v) for v in xq]), np.array([float(v) for v in pq])
+        xdt, pdt = case.get("xdt", "float64"), case.get("pdt", "float64")
+        xq = [Fraction(v, case.get("xden", 4)) for v in case["x"]]
+        pq = [Fraction(v, case.get("pden", 32)) for v in case["psf"]]
         n, m = len(xq), len(pq)
+        why = dtype_domain(xdt, pdt, xq, pq)
+        if why is None and n < m:
+            why = "signal shorter than the kernel"
+        if why is not None:                     # outside the class (only a shrinker / hand-written replay gets here)
+            return outcome({}, {}, {}, spec_ok=True, model_ok=True, undetermined=True, features=["convolve:outside-domain"],
+                           note=why)
+        x, psf = np.array([float(v) for v in xq]).astype(xdt), np.array([float(v) for v in pq]).astype(pdt)
         rep = ctx.driver.call("c18.convolve", x=[core.rat(v) for v in xq], psf=[core.rat(v) for v in pq])
+        hexs = lambda l: [float(v).hex() for v in l]
         try:
             out = cv.convolve(x, psf, mode="pad")
             vals = [float(v) for v in out]
+            # the modes handed to numpy: full (the premise of the deconvolution clause), valid, same
+            other = {md: hexs(cv.convolve(x, psf, mode=md)) for md in ("full", "valid", "same")}
         except Exception as e:
             r = {"raises": type(e).__name__}
             return outcome(r, {}, {}, spec_ok=False, model_ok=False, features=["convolve:raises"])
-        hexs = lambda l: [float(v).hex() for v in l]
-        impl = {"values": hexs(vals)}
-        model = {"values": hexs(fl(v) for v in rep["model"])}
+        impl = {"values": hexs(vals), **other}
+        model = {"values": hexs(fl(v) for v in rep["model"]), **{md: hexs(fl(v) for v in rep[md]) for md in other}}
         sp = rep["spec"]
         spec = {"length": sp["length"], "interior": [[k, fl(v).hex()] for k, v in sp["interior"]],
                 "constant": None if sp["constant"] is None else fl(sp["constant"]).hex()}
@@ -287,20 +508,44 @@ class C18(Prop):
             feats.add("convolve:constant,sum=1")
         if sp["interior"]:
             feats.add("convolve:has-interior")
+        feats |= self.dtype_features("convolve", xdt, pdt, out)
         return outcome(impl, model, spec, spec_ok=core.canon(proj) == core.canon(spec), features=feats)
+
+    @staticmethod
+    def dtype_features(op, xdt, pdt, out):
+        if (xdt, pdt) == ("float64", "float64"):
+            return set()
+        kind = lambda d: {"i": "int", "u": "uint", "f": "float32" if np.dtype(d).itemsize == 4 else "float64"}[np.dtype(d).kind]
+        return {op + ":dtype", f"{op}:dtype:signal-{kind(xdt)},kernel-{kind(pdt)}", f"{op}:dtype:result-{np.asarray(out).dtype}"}
 
     def eval_deconv(self, case, ctx):
         from pewlib.process import convolve as cv
 
+        xdt, pdt = case.get("xdt", "float64"), case.get("pdt", "float64")
+        typed = "xdt" in case or "pdt" in case
         xq = [Fraction(v) for v in case["x"]]
-        pq = [Fraction(v, 8) for v in case["psf"]]
-        rep = ctx.driver.call("c18.deconv", x=[core.rat(v) for v in xq], psf=[core.rat(v) for v in pq])
-        c = np.array([fl(v) for v in rep["c"]])
-        psf = np.array([float(v) for v in pq])
+        pq = [Fraction(v, case.get("pden", 8)) for v in case["psf"]]
         mode = case["mode"]
-        tol = 1e-8 * (1 + max(abs(float(v)) for v in xq))
+        why = dtype_domain(xdt, pdt, xq, pq)
+        if why is None and any(v == 0 for v in xq):
+            why = "zero sample (np.trim_zeros may shorten the exact result)"
+        if why is None and (len(xq) < max(len(pq), 3) or 4 * abs(pq[0]) < 5 * sum(abs(v) for v in pq[1:])):
+            why = "kernel not first-tap dominant (|p0| >= 1.25 sum|rest|: condition number <= 9) / signal too short"
+        if why is not None:
+            return outcome({}, {}, {}, spec_ok=True, model_ok=True, undetermined=True, features=["deconv:outside-domain"], note=why)
+        rep = ctx.driver.call("c18.deconv", x=[core.rat(v) for v in xq], psf=[core.rat(v) for v in pq])
+        cexact = [fl(v) for v in rep["c"]]
+        psf = np.array([float(v) for v in pq]).astype(pdt)
+        f32 = any(np.dtype(d) == np.float32 for d in (xdt, pdt))
+        tol = (TOL32 if f32 else TOL64) * (1 + max(abs(float(v)) for v in xq))
         try:
-            out = [float(v) for v in cv.deconvolve(c, psf, mode=mode)]
+            if typed:   # the full convolution is produced by pewlib itself from the typed arrays and keeps numpy's result dtype
+                c = cv.convolve(np.array([float(v) for v in xq]).astype(xdt), psf, mode="full")
+            else:
+                c = np.array(cexact)
+            full = [float(v) for v in c]
+            res = cv.deconvolve(c, psf, mode=mode)
+            out = [float(v) for v in res]
         except Exception as e:
             return outcome({"raises": type(e).__name__}, {}, {}, spec_ok=False, model_ok=False, features=["deconv:raises"])
         spec = [fl(v) for v in rep["spec"]]                       # the leading n - 2 samples (trimming arithmetic)
@@ -310,9 +555,15 @@ class C18(Prop):
         # and in 'valid' mode nothing but leading samples of x
         lead = out if mode == "valid" else out[: len(spec)]
         spec_ok = len(spec) <= len(lead) <= len(xs) and all(abs(a - b) <= tol for a, b in zip(lead, xs))
-        model_ok = len(out) == len(model) and all(abs(a - b) <= tol for a, b in zip(out, model))
+        model_ok = full == cexact and len(out) == len(model) and all(abs(a - b) <= tol for a, b in zip(out, model))
         feats = {"deconv", "deconv:" + mode, f"deconv:m={len(pq)}"}
-        return outcome({"values": out}, {"values": model}, {"leading": spec}, spec_ok=spec_ok, model_ok=model_ok, features=feats)
+        if typed:
+            feats |= self.dtype_features("deconv", xdt, pdt, res)
+            feats.add(f"deconv:dtype:full-convolution-{c.dtype}")
+            if c.dtype.kind in "iu":
+                feats.add(f"deconv:dtype:integer-full-convolution,{mode}")
+        return outcome({"full": full, "values": out}, {"full": cexact, "values": model}, {"leading": spec}, spec_ok=spec_ok,
+                       model_ok=model_ok, features=feats)
 
     def special(self, case, ctx, name, impl_fn, true_fn, ok_fn, model_op=None, model_rel=1e-10, model_max=1e6, model_abs=1e-300):
         xs = [float(x) for x in case["xs"]]
@@ -392,17 +643,66 @@ class C18(Prop):
             feats.add("gamma:above-20")
         return outcome(impl, model, spec, spec_ok=sok, model_ok=mok, features=feats)
 
+    @staticmethod
+    def kernel_domain(name, size, args, axq):
+        """None when the parameters lie in the documented domain and the exact axis inside the density's support
+        (the property's 'density finite on that axis'); else the reason.  Generated cases always pass; this keeps
+        evaluate sound for cases a shrinker or a hand-written replay produces."""
+        if size < 2 or not all(isinstance(v, (int, float)) and math.isfinite(v) for v in args):
+            return "size < 2 or non-finite parameter"
+        lo, hi = min(axq), max(axq)
+        if name == "beta":
+            if size < 3 or args[0] < 1 or args[1] < 1 or lo < 0 or hi > 1:
+                return "beta: shapes >= 1, >= 3 points, axis inside [0, 1]"
+        elif name == "exponential":
+            if args[0] <= 0 or lo < 0 or args[0] * float(lo) > 600:
+                return "exponential: lambda > 0, axis inside x >= 0, density above the underflow range"
+        elif name in POS_KERNELS:
+            if args[0] <= 0 or lo <= 0 or (name == "inversegamma" and args[1] <= 0):
+                return name + ": positive parameters, axis inside x > 0"
+        elif name == "triangular":
+            if not (args[0] <= 0 <= args[1] and args[0] < args[1]):
+                return "triangular: a <= 0 <= b, a < b"
+        else:
+            if args[0] <= 0:
+                return name + ": width > 0"
+            d = float(min(abs(v - Fraction(args[1])) for v in axq)) / args[0]      # nearest axis point, in widths
+            if name == "super_gaussian" and not (args[2] == int(args[2]) and 1 <= args[2] <= 16):
+                return "super_gaussian: integer power"
+            expo = {"laplace": d, "normal": 0.5 * d * d}.get(name) if name != "super_gaussian" else \
+                0.5 * d ** (2 * int(args[2])) if d < 1e3 else math.inf
+            if expo > 600:
+                return name + ": no axis point carries density above the underflow range"
+        return None
+
     def eval_kernel(self, case, ctx):
         from pewlib.process import convolve as cv
 
         name, size, args, scale, shift = case["name"], case["size"], case["args"], case["scale"], case["shift"]
+        axis_kind = "unit" if name == "beta" else "pos" if name in POS_KERNELS else "sym"
+        rep = ctx.driver.call("c18.axis", kind=axis_kind, size=size, scale=core.rat(scale), shift=core.rat(shift))
+        axq = [unrat(v) for v in rep["x"]]
+        why = self.kernel_domain(name, size, args, axq)
         try:
-            out = np.asarray(getattr(cv, name)(size, *args, scale=scale, shift=shift), dtype=float)
+            out = np.asarray(getattr(cv, name)(size, *args, scale=scale, shift=shift), dtype=float) if why is None else None
         except Exception as e:
             return outcome({"raises": type(e).__name__}, {}, {}, spec_ok=False, model_ok=False, features=["kernel:raises"])
-        axis_kind = "unit" if name == "beta" else "pos" if name in ("exponential", "inversegamma", "loglaplace", "lognormal") else "sym"
-        rep = ctx.driver.call("c18.axis", kind=axis_kind, size=size, scale=core.rat(scale), shift=core.rat(shift))
-        ax = [fl(v) for v in rep["x"]]
+        my = None
+        if why is None and name == "triangular":
+            r2 = ctx.driver.call("c18.triangular", size=size, a=core.rat(args[0]), b=core.rat(args[1]),
+                                 scale=core.rat(scale), shift=core.rat(shift))
+            my = [fl(v) for v in r2["y"]]
+            # normalisation needs an axis point that carries density whichever way the float axis rounds: one clear of
+            # the support edges, or the mode 0 itself when it sits on the exact axis AND the returned axis holds 0.0 there
+            mrg = Fraction(1e-9) * max([1] + [abs(v) for v in axq])
+            a_, b_ = Fraction(args[0]), Fraction(args[1])
+            xr = [float(v) for v in out[:, 0]] if out.ndim == 2 and out.shape == (size, 2) else [None] * size
+            if not any(my) or not (any(a_ + mrg <= v <= b_ - mrg for v in axq)
+                                   or any(v == 0 and xi == 0.0 for v, xi in zip(axq, xr))):
+                why = "triangular: no axis point robustly inside the support (normalisation by a zero sum)"
+        if why is not None:
+            return outcome({}, {}, {}, spec_ok=True, model_ok=True, undetermined=True, features=["kernel:outside-domain"], note=why)
+        ax = [float(v) for v in axq]
         span = max([1.0] + [abs(v) for v in ax])
         shape_ok = out.ndim == 2 and out.shape == (size, 2)
         x = [float(v) for v in out[:, 0]] if shape_ok else []
@@ -415,11 +715,12 @@ class C18(Prop):
         spec = {"shape": [size, 2], "axis_matches_linspace": True, "finite": True, "non_negative": True, "sums_to_one": True}
         model, model_ok = {"axis": "lean linspace", "values": "not modelled"}, axis_ok
         if name == "triangular" and shape_ok:
-            r2 = ctx.driver.call("c18.triangular", size=size, a=core.rat(args[0]), b=core.rat(args[1]),
-                                 scale=core.rat(scale), shift=core.rat(shift))
-            my = [fl(v) for v in r2["y"]]
-            # axis points within rounding of a kink/support edge may fall on either side: compare only when clear
-            edge = any(abs(v - e) <= 1e-9 * span for v in ax for e in (args[0], args[1], 0.0) if v != e)
+            # an axis point within rounding of a kink / support edge may fall on either side of it in floating point
+            # (and the density jumps at 0 when a == 0 or b == 0): compare value by value only when every such point is
+            # clear of the edges, or sits on one exactly both in the exact axis and in the returned one
+            edges = [Fraction(args[0]), Fraction(args[1]), Fraction(0)]
+            edge = any(abs(float(v - e)) <= 1e-9 * span and not (v == e and xi == float(e))
+                       for v, xi in zip(axq, x) for e in edges)
             model_ok = axis_ok and (edge or all(abs(a - b) <= 1e-9 for a, b in zip(y, my)))
             model = {"axis": "lean linspace", "values": "lean triangular" + (" (edge within rounding: skipped)" if edge else "")}
         feats = {"kernel:" + name, "kernel:size=" + (str(size) if size <= 3 else "4+")}
@@ -427,6 +728,42 @@ class C18(Prop):
             feats.add("kernel:scaled")
         if shift not in (0.0, 1e-6):
             feats.add("kernel:shifted")
+        # boundary classes, detected from the case itself (whoever generated it)
+        bd = set()
+        zero_on_axis = any(v == 0 for v in axq) and 0.0 in x
+        if scale < 0:
+            bd.add("neg-scale")
+        if zero_on_axis:
+            bd.add("axis-has-exact-0")
+        if name == "triangular":
+            a_, b_ = args
+            if b_ == 0:
+                bd.add("triangular:b=0")
+            if a_ == 0:
+                bd.add("triangular:a=0")
+            if (a_ == 0 or b_ == 0) and zero_on_axis:
+                bd.add("triangular:mode-on-limit-and-on-axis")
+            if any(v == e and xi == float(e) for v, xi in zip(axq, x) for e in (Fraction(a_), Fraction(b_)) if e != 0):
+                bd.add("triangular:support-end-on-axis")
+        elif name == "beta":
+            if 1.0 in args:
+                bd.add("beta:shape=1")
+            if args[0] == 1.0 and 0.0 in x or args[1] == 1.0 and 1.0 in x:
+                bd.add("beta:shape=1-at-its-end-point")
+        elif name == "exponential":
+            if zero_on_axis:
+                bd.add("exponential:x=0")
+        elif name in ("loglaplace", "lognormal"):
+            if any(xi > 0 and math.log(xi) == args[1] for xi in x):
+                bd.add(name + ":log-x=mu-on-axis")
+        elif name in ("laplace", "normal", "super_gaussian"):
+            if args[1] in x:
+                bd.add(name + ":location-on-axis")
+            if name == "super_gaussian":
+                bd.add("super_gaussian:power" + ("=1" if args[2] == 1 else "=2" if args[2] == 2 else ">2"))
+        if case.get("boundary"):
+            bd.add("generated")
+        feats |= {"kernel:boundary:" + f for f in bd}
         return outcome(impl, model, spec, model_ok=model_ok, features=feats)
 
     # ------------------------------------------------------------------ known findings / shrinking
@@ -451,6 +788,8 @@ class C18(Prop):
                 yield {**case, "psf": p[:-1]}
         if case["kind"] == "kernel" and case["size"] > 3:
             yield {**case, "size": case["size"] // 2 + 1}
+            if case["size"] > 4:
+                yield {**case, "size": case["size"] - 2}            # keeps the parity: 0 stays on a symmetric axis
 
 
 PROP = C18()
